@@ -152,6 +152,30 @@ def oracle_c03(chk, rec):
                  {**d, "callbacks_at": rec.callbacks, "generations": gens}, feats(rec, "callbacks"))
 
 
+def _get_fittest_isolated(chk, rec):
+    """objects returned by get_fittest() can be changed by the caller without affecting the optimizer's
+    own record: scribble over one result, ask again, compare with the deep copy taken at record time"""
+    opt = rec.opt
+    for attempt in range(2):
+        a = opt.get_fittest()
+        try:
+            if isinstance(a["genotype"], np.ndarray) and a["genotype"].dtype != object:
+                a["genotype"][...] = -77 - attempt
+                if isinstance(a["phenotype"], np.ndarray) and a["phenotype"].dtype != object:
+                    a["phenotype"][...] = -77 - attempt
+            else:
+                a["genotype"]._nodes.clear()
+            a["fitness"] = -1e300
+        except Exception:
+            pass
+        b = opt.get_fittest()
+        if T.key_of(b["genotype"]) != T.key_of(rec.snaps[-1]["raw_best"][0]) or T.key_of(b["phenotype"]) != T.key_of(rec.snaps[-1]["raw_best"][1]) \
+                or b["fitness"] != rec.snaps[-1]["raw_best"][2]:
+            chk.fail("changing the object returned by get_fittest() changed the optimizer's own record",
+                     {"run": T.describe(rec), "call": attempt + 1}, feats(rec, "get_private"))
+            return
+
+
 # ----------------------------------------------------------------------------- C17
 def oracle_c17(chk, rec):
     d = {"run": T.describe(rec)}
@@ -206,6 +230,7 @@ def oracle_c17(chk, rec):
                 chk.fail("the working population aliases the caller's init_population", d, feats(rec, "caller_inputs"))
         except Exception:
             pass
+    _get_fittest_isolated(chk, rec)
     # entries do not alias live arrays
     try:
         last = st["population_g"][-1]
